@@ -5,6 +5,8 @@ Output {"results": [{"ok": {...}} | {"exc": name, "msg": text}, ...]}
 """
 import json
 import logging
+import os
+import pickle
 import sys
 import warnings
 
@@ -33,6 +35,8 @@ def _mk(n):
 
 
 KS = {n: _mk(n) for n in range(1, 5)}
+for _n, _k in KS.items():
+    globals()[_k.__name__] = _k          # picklable by reference (fitness objects are pickled by pooled searches)
 ATTRS = ["a", "b", "c", "d"]
 
 
@@ -75,7 +79,7 @@ def build_model(md):
         l, r = operand(a["l"], priors), operand(a["r"], priors)
         op = a["op"]
         asr = (l < r) if op == "lt" else (l <= r) if op == "le" else (l > r) if op == "gt" else (l >= r)
-        target = root if a["at"] < 0 else comps[a["at"]]
+        target = root if a["at"] == -1 else getattr(root, "sub") if a["at"] == -2 else comps[a["at"]]
         target.add_assertion(asr)
     return root, priors
 
@@ -147,10 +151,11 @@ def check_config_dir():
         src = os.path.join(os.environ.get("VERIF_DIR", "/verif"), "harness", "config", "general.yaml")
         d = os.path.join(os.environ["VERIF_SCRATCH"], "config_check")
         os.makedirs(d, exist_ok=True)
-        text = open(src).read()
-        assert "check_likelihood_function: false" in text
+        import yaml
+        cfg = yaml.safe_load(open(src))
+        cfg.setdefault("test", {})["check_likelihood_function"] = True
         with open(os.path.join(d, "general.yaml"), "w") as f:
-            f.write(text.replace("check_likelihood_function: false", "check_likelihood_function: true"))
+            yaml.safe_dump(cfg, f)
         _CHECK_DIR.append(d)
     return _CHECK_DIR[0]
 
@@ -171,7 +176,21 @@ def scalar(v):
 
 
 def run_case(c):
-    nd = c["container"] == "nd"
+    import autofit.jax_wrapper as jw
+    saved_jax = jw.use_jax
+    # USE_JAX=1 without jax: the only thing the evaluation path consults is this module flag
+    # (Prior.assert_within_limits); jit stays the identity it was defined as at import
+    jw.use_jax = bool(c.get("jax"))
+    try:
+        return _run_case(c)
+    finally:
+        jw.use_jax = saved_jax
+
+
+def _run_case(c):
+    container = c["container"]
+    nd = container == "nd"
+    ints = bool(c.get("ints")) and not nd
     root, priors = build_model(c["model"])
     ids = [p.id for p in priors]
     ordered = [p.id for p in root.priors_ordered_by_id]
@@ -185,6 +204,15 @@ def run_case(c):
         documented = dict(fom_is_log_likelihood=True, resample_figure_of_merit=-np.inf,
                           convert_to_chi_squared=False, store_history=False)
         kw = {k: v for k, v in kw.items() if v != documented[k]}
+
+    def typed(x):
+        v = unhex(x)
+        if nd:
+            return np.float64(v)
+        if ints and v == v and v != 0 and abs(v) < 2.0 ** 53 and v == int(v):
+            return int(v)          # an integral entry proposed as a Python int
+        return v
+
     ctor = c.get("ctor")
     ctor_raised = None
     if ctor:
@@ -193,6 +221,7 @@ def run_case(c):
         best = [unhex(x) for x in c["buffers"][ctor["pbuf"]]]
         kw["paths"] = FakePaths(np.array(best) if nd else best, unhex(ctor["old"]))
         saved = list(conf.instance.configs)
+        saved_mode = os.environ.pop("PYAUTOFIT_TEST_MODE", None)
         conf.instance.push(new_path=check_config_dir())
         try:
             fitness = cls(model=root, analysis=analysis, **kw)
@@ -200,6 +229,8 @@ def run_case(c):
             ctor_raised = {"esc": exc_name(e), "msg": str(e)[:160]}
         finally:
             conf.instance.configs = saved
+            if saved_mode is not None:
+                os.environ["PYAUTOFIT_TEST_MODE"] = saved_mode
         if ctor_raised:
             return {"ctor_raised": ctor_raised, "out": [], "hist_p": [], "hist_l": [],
                     "ids_ascending": all(a < b for a, b in zip(ids, ids[1:])), "ordered_is_creation": ordered == ids,
@@ -207,23 +238,30 @@ def run_case(c):
     else:
         fitness = cls(model=root, analysis=analysis, **kw)
 
-    def mkbuf(vals):
-        vals = [unhex(x) for x in vals]
-        return np.array(vals, dtype=float) if nd else list(vals)
-
-    bufs = [mkbuf(b) for b in c["buffers"]]
+    # caller buffers.  pyswarms + arrays: one persistent 2-D position array whose rows ARE the buffers (views),
+    # as pyswarms keeps swarm.position; otherwise independent lists / arrays / tuples
+    lens = {len(b) for b in c["buffers"]}
+    pool = None
+    if nd and c["ps"] and len(lens) == 1:
+        pool = np.array([[unhex(x) for x in b] for b in c["buffers"]], dtype=float).reshape(len(c["buffers"]), -1)
+        bufs = [pool[i] for i in range(len(c["buffers"]))]
+    elif nd:
+        bufs = [np.array([unhex(x) for x in b], dtype=float) for b in c["buffers"]]
+    elif container == "tuple":
+        bufs = [tuple(typed(x) for x in b) for b in c["buffers"]]
+    else:
+        bufs = [[typed(x) for x in b] for b in c["buffers"]]
     # oracle table: prior k . log_prior_from_value at every value that is ever at position k of a buffer
     # and the interpreter's own sum() of those terms (typed as the implementation would see them:
-    # Python floats for list buffers, numpy scalars for array buffers)
+    # Python floats / ints for list and tuple buffers, numpy scalars for array buffers)
     seen = [dict() for _ in priors]
     sums = {}
 
     def note(vals):
         terms = []
         for k, x in enumerate(vals[:len(priors)]):
-            arg = np.float64(unhex(x)) if nd else unhex(x)
             try:
-                t = priors[k].log_prior_from_value(arg)
+                t = priors[k].log_prior_from_value(typed(x))
                 terms.append(t)
                 seen[k][x] = hexf(t)
             except Exception:
@@ -240,8 +278,12 @@ def run_case(c):
     for op in c["ops"]:
         if op[0] == "write":
             note(op[2])
-            new = [unhex(x) for x in op[2]]
-            bufs[op[1]][:] = np.array(new, dtype=float) if nd else new
+            if nd:
+                bufs[op[1]][:] = np.array([unhex(x) for x in op[2]], dtype=float)
+            elif container == "tuple":
+                bufs[op[1]] = tuple(typed(x) for x in op[2])       # immutable: the caller rebinds
+            else:
+                bufs[op[1]][:] = [typed(x) for x in op[2]]
             out.append([])
         elif op[0] == "call":
             v, esc = res_of(lambda: fitness(bufs[op[1]]))
@@ -252,10 +294,18 @@ def run_case(c):
             else:
                 out.append([{"v": scalar(v)}])
         elif op[0] == "batch":
-            rows = [list(bufs[b]) for b in op[1]]
-            arg = np.array(rows, dtype=float) if nd else [list(map(float, r)) for r in rows]
+            bs = op[1]
+            if pool is not None and bs == list(range(bs[0], bs[0] + len(bs))):
+                arg = pool[bs[0]:bs[0] + len(bs)]                  # a view: rows alias the buffers
+            elif nd:
+                arg = np.array([list(bufs[b]) for b in bs], dtype=float)
+            else:
+                arg = [bufs[b] for b in bs]                        # the caller's own row objects
             v, esc = res_of(lambda: fitness(arg))
             out.append(esc or [{"v": hexf(x)} for x in np.asarray(v, dtype=float).ravel().tolist()])
+        elif op[0] == "pickle":
+            fitness = pickle.loads(pickle.dumps(fitness))
+            out.append([])
         else:
             raise ValueError(op[0])
     hist_p = [[hexf(x) for x in list(p)] for p in fitness.parameters_history_list]
@@ -267,7 +317,7 @@ def run_case(c):
         "prior_count": root.prior_count,
         "lp": [sorted(d.items()) for d in seen],
         "sums": sorted((json.loads(k), v) for k, v in sums.items()),
-        "lik_calls": analysis.calls,
+        "lik_calls": fitness.analysis.calls,
     }
 
 
